@@ -58,9 +58,9 @@ CHECKS = {
    text="Seeded search over (valid input, fault sequence, read segmentation, reader options). Every public reading entry point (files with/without preamble, meta group, eager/lazy/collector data-set readers in every transfer syntax incl. deflated and flexible VR, DICOM JSON, PDUs, pixel decoding with native/RLE/JPEG decoders, dump, textual tag/selector/date parsers on harvested strings) must return Ok or Err: no panic (class = innermost dicom-rs source location), no abort (each case runs in a worker process; a death is attributed to its run and described by a dry re-execution), no hang (read-call budget 256+8*len, plus a wall-clock watchdog confirmed by a solitary re-run). Four known findings (unbounded recursion per nested sequence level -> stack overflow) are listed in known_findings.jsonl.",
    note="Build has overflow checks and debug assertions ON. Allocation failure is not injected: readers that allocate what a damaged length field says are slow, not failing; the largest request is recorded as a probe (allocations >= 64 MiB are served with huge pages, >= 512 MiB limited to 4 concurrent processes). LUT/`to_vec` conversions after decoding are not called (not a reading entry point). The string clause is plain input mutation with no simulator dimension."),
  "C34": dict(level="fault_enumeration", engine=ENG_A, design="DESIGN.md §4 C34",
-   technique="deterministic simulation with fault enumeration: each workload is executed fault-free for reference and then once per failing byte offset of the simulated writer/reader/transport (exhaustive for outputs <= 600 bytes, 128 sampled + boundaries above); oracle = Err, or Ok with output identical to the fault-free run inspected after all drops",
-   text="For generated data sets, files, PDUs and P-DATA messages the simulated sink or source fails at every byte offset (exhaustive for small outputs) with six I/O error kinds or a zero-length write, once or persistently. The public operation (write_dataset_with_ts(_options), write_all, write_dataset, write_meta incl. Deflated Explicit LE; read_dataset_with_ts, from_reader, FileMetaTable::from_reader; write_pdu, PDataWriter write/finish, read_pdu_from_wire, PDataReader) must return Err, or Ok with exactly the fault-free output/value; the sink is inspected only after every value is dropped so that bytes lost in Drop impls are seen. Two known findings (deflate stream finished in Drop) are listed in known_findings.jsonl.",
-   note="Interrupted and UnexpectedEof are deliberately not used as the injected failure. Association-level send/receive/release under socket failures belongs to the network-level checks. Path-based writers (write_to_file) are not fault-injected; their Write-based twin write_all carries the property."),
+   technique="deterministic simulation with fault enumeration: each workload is executed fault-free for reference and then once per failing byte offset of the simulated writer/reader/transport (exhaustive for outputs <= 600 bytes, 128 sampled + boundaries above); oracle = Err, or Ok with output identical to the fault-free run inspected after all drops; the same at association level on the multi-node engine: the connection is lost at an enumerated byte offset of what a real requestor/acceptor sends or receives",
+   text="For generated data sets, files, PDUs and P-DATA messages the simulated sink or source fails at every byte offset (exhaustive for small outputs) with six I/O error kinds or a zero-length write, once or persistently. The public operation (write_dataset_with_ts(_options), write_all, write_dataset, write_meta incl. Deflated Explicit LE; read_dataset_with_ts, from_reader, FileMetaTable::from_reader; write_pdu, PDataWriter write/finish, read_pdu_from_wire, PDataReader) must return Err, or Ok with exactly the fault-free output/value; the sink is inspected only after every value is dropped so that bytes lost in Drop impls are seen. Association level (assoc-* configurations, engine simnet): a short conversation of a real sync/async requestor or acceptor with a scripted peer is repeated with the connection lost after exactly k bytes sent or received (windows of 8 consecutive offsets per run, all offsets reached across runs); establish/send/receive/release/abort must return Err or Ok with the effect complete on the wire. Two known findings (deflate stream finished in Drop) are listed in known_findings.jsonl.",
+   note="Interrupted and UnexpectedEof are deliberately not used as the injected failure. At association level the injected failure is loss of the connection at a byte offset; other socket errors are injected by C30's random faults. Path-based writers (write_to_file) are not fault-injected; their Write-based twin write_all carries the property."),
  "C06": dict(level="exploration", engine=ENG_A, design="DESIGN.md §4 C06",
    technique="deterministic simulation: the lazy reader and the collector are driven by seed-drawn API-call histories over a seekable simulated source (short reads, EINTR, first read from 1 byte up) and refined against the eager reader as reference model",
    text="Seeded search over generated conforming files (three uncompressed syntaxes, nested sequences with defined/undefined lengths, native or encapsulated pixel data with empty/non-empty offset tables and zero-length fragments) x API-call histories x read segmentations. Lazy token stream (values fetched or skipped) must equal the eager token stream; the collector's meta group, union of portions split at arbitrary (present/absent) tags, separately read offset table and one-by-one fragments must equal the eagerly read object; read_until/read_to must give exactly the elements below / up to the tag.",
@@ -139,7 +139,7 @@ def main():
         "engines": [
             {"name": ENG_A, "path": "/verif/sim/dcmsim/src/simio.rs", "serves_properties": [p for p, c in CHECKS.items() if c["engine"] == ENG_A],
              "kind_free_text": "single-threaded deterministic simulation of Read/Write/Seek/AsyncRead/AsyncWrite seams with fault injection; every decision from a recorded PRNG tape; manual future poller"},
-            {"name": ENG_B, "path": "/verif/sim/dcmsim/src/simnet", "serves_properties": [p for p, c in CHECKS.items() if c["engine"] == ENG_B],
+            {"name": ENG_B, "path": "/verif/sim/dcmsim/src/simnet.rs", "serves_properties": sorted([p for p, c in CHECKS.items() if c["engine"] == ENG_B] + ["C34"]),
              "kind_free_text": "multi-node deterministic network simulation at the libc socket seam (interposed recv/send/epoll_wait/connect/...): real association code and tools as nodes, one runnable at a time, seeded scheduler decides interleaving, segmentation and connection faults"},
         ],
         "checks": checks,
